@@ -558,6 +558,13 @@ theorem CoSame.trans {a b c : ReqId → Option Checkout} (h1 : CoSame a b) (h2 :
 theorem CoSame.of_eq {a b : ReqId → Option Checkout} (h : b = a) : CoSame a b := by
   subst h; exact CoSame.refl _
 
+theorem takeConn_inv {s : State} (h : OriginInv s) (r : ReqId) (c : Checkout) (hco : s.co r = some c) :
+    OriginInv (takeConn s r c) ∧ Ext s (takeConn s r c) ∧ CoSame s.co (takeConn s r c).co ∧
+      (takeConn s r c).co r = some { c with conn := none } := by
+  unfold takeConn
+  exact ⟨h.setCo r c _ hco rfl rfl (fun cid hcid => by cases hcid), Ext.of_eq rfl rfl,
+    CoSame.update hco rfl rfl, by simp⟩
+
 theorem dropCheckout_inv {s : State} (h : OriginInv s) (r : ReqId) :
     OriginInv (dropCheckout s r) ∧ Ext s (dropCheckout s r) ∧ CoSame s.co (dropCheckout s r).co := by
   unfold dropCheckout
@@ -567,32 +574,34 @@ theorem dropCheckout_inv {s : State} (h : OriginInv s) (r : ReqId) :
     simp only []
     split
     · exact ⟨h, Ext.refl s, CoSame.refl _⟩
-    · obtain ⟨h1, e1, c1⟩ := returnUnused_inv h c (fun cid hcid => h.co.2 r c cid hco hcid)
+    · obtain ⟨h0, e0, cs0, hr0⟩ := takeConn_inv h r c hco
+      obtain ⟨h1, e1, c1⟩ := returnUnused_inv h0 c (fun cid hcid => (h.co.2 r c cid hco hcid).ext e0)
+      generalize takeConn s r c = s0 at h0 e0 cs0 hr0 h1 e1 c1
       split
       · have h2 := spawn_inv h1 (.delayed r) (fun _ _ _ e => by cases e)
-        have e2 := spawn_ext (returnUnused s c) (.delayed r)
-        have c2 := spawn_co (returnUnused s c) (.delayed r)
+        have e2 := spawn_ext (returnUnused s0 c) (.delayed r)
+        have c2 := spawn_co (returnUnused s0 c) (.delayed r)
         have h3 := dropRx_inv h2 r
-        have e3 := dropRx_ext (spawn (returnUnused s c) (.delayed r)) r
-        have c3 := dropRx_co (spawn (returnUnused s c) (.delayed r)) r
-        have hr3 : (dropRx (spawn (returnUnused s c) (.delayed r)) r).co r = some c := by
-          rw [c3, c2, c1]; exact hco
-        refine ⟨h3.setCo r c _ hr3 rfl rfl (fun cid hcid => by cases hcid), ?_, ?_⟩
-        · exact ((e1.trans e2).trans e3).trans (Ext.of_eq rfl rfl)
-        · have : CoSame s.co (dropRx (spawn (returnUnused s c) (.delayed r)) r).co :=
+        have e3 := dropRx_ext (spawn (returnUnused s0 c) (.delayed r)) r
+        have c3 := dropRx_co (spawn (returnUnused s0 c) (.delayed r)) r
+        have hr3 : (dropRx (spawn (returnUnused s0 c) (.delayed r)) r).co r = some { c with conn := none } := by
+          rw [c3, c2, c1]; exact hr0
+        refine ⟨h3.setCo r _ _ hr3 rfl rfl (fun cid hcid => by cases hcid), ?_, ?_⟩
+        · exact (((e0.trans e1).trans e2).trans e3).trans (Ext.of_eq rfl rfl)
+        · have : CoSame s0.co (dropRx (spawn (returnUnused s0 c) (.delayed r)) r).co :=
             CoSame.of_eq (by rw [c3, c2, c1])
-          exact this.trans (CoSame.update hr3 rfl rfl)
+          exact (cs0.trans this).trans (CoSame.update hr3 rfl rfl)
       · obtain ⟨h2, e2, c2⟩ := cancelIfOwner_inv h1 c
         have h3 := dropRx_inv h2 r
-        have e3 := dropRx_ext (cancelIfOwner (returnUnused s c) c) r
-        have c3 := dropRx_co (cancelIfOwner (returnUnused s c) c) r
-        have hr3 : (dropRx (cancelIfOwner (returnUnused s c) c) r).co r = some c := by
-          rw [c3, c2, c1]; exact hco
-        refine ⟨h3.setCo r c _ hr3 rfl rfl (fun cid hcid => by cases hcid), ?_, ?_⟩
-        · exact ((e1.trans e2).trans e3).trans (Ext.of_eq rfl rfl)
-        · have : CoSame s.co (dropRx (cancelIfOwner (returnUnused s c) c) r).co :=
+        have e3 := dropRx_ext (cancelIfOwner (returnUnused s0 c) c) r
+        have c3 := dropRx_co (cancelIfOwner (returnUnused s0 c) c) r
+        have hr3 : (dropRx (cancelIfOwner (returnUnused s0 c) c) r).co r = some { c with conn := none } := by
+          rw [c3, c2, c1]; exact hr0
+        refine ⟨h3.setCo r _ _ hr3 rfl rfl (fun cid hcid => by cases hcid), ?_, ?_⟩
+        · exact (((e0.trans e1).trans e2).trans e3).trans (Ext.of_eq rfl rfl)
+        · have : CoSame s0.co (dropRx (cancelIfOwner (returnUnused s0 c) c) r).co :=
             CoSame.of_eq (by rw [c3, c2, c1])
-          exact this.trans (CoSame.update hr3 rfl rfl)
+          exact (cs0.trans this).trans (CoSame.update hr3 rfl rfl)
 
 theorem startDial_inv {s : State} (h : OriginInv s) (r : ReqId) : OriginInv (startDial s r) := by
   unfold startDial; split
